@@ -22,7 +22,8 @@ BATCH_SIZE = {'quick': 1, 'thorough': 1}
 REQUIRED_COUNTERS = ['files_validated', 'files_rewritten',
                      'files_needing_no_change', 'rounded_entries_checked',
                      'boundary_values_checked', 'genes_checked',
-                     'rejections_checked']
+                     'rejections_checked',
+                     'known_symbols_containing_a_dot_checked']
 RULE = ('case block = generated h5ad files: integers stored as floats, '
         'non-integers, negatives, values straddling integer-type boundaries '
         '(254.5, 255.5, 65535.5, -128.5, -129.5, 2^31 +- .5), dense / CSR / '
@@ -64,6 +65,11 @@ def known_symbols():
         keys = [k for k in list(mouse_gene_id_lookup.keys())[:6000]
                 if not is_ensembl(k) and '.' not in k]
         _SYMS['keys'] = keys
+        # known symbols that themselves contain a dot (Tex19.1, H2-M10.1)
+        _SYMS['dotted'] = sorted(
+            k for k in mouse_gene_id_lookup.keys()
+            if '.' in k and not is_ensembl(k)
+            and is_ensembl(mouse_gene_id_lookup[k]))
         _SYMS['lookup'] = mouse_gene_id_lookup
         _SYMS['real_ens'] = sorted({v for v in list(
             mouse_gene_id_lookup.values())[:6000] if is_ensembl(v)})
@@ -96,6 +102,9 @@ def make_genes(rng, n, klass):
                 tgt = base
             elif kind == 'sym':
                 nm = keys[int(rng.integers(len(keys)))]
+                if rng.random() < 0.25 and _SYMS['dotted']:
+                    nm = _SYMS['dotted'][int(rng.integers(
+                        len(_SYMS['dotted'])))]
                 tgt = lookup[nm].split('.')[0]
             else:
                 nm = f'mystery_gene_{int(rng.integers(10 ** 6))}'
@@ -299,6 +308,8 @@ def check_one(ctx, rng, work, idx):
     placeholders = []
     for j, (g, e, o) in enumerate(zip(got_ids, expect, genes)):
         ctx.bump('genes_checked')
+        if e is not None and '.' in o and not o.startswith('ENS'):
+            ctx.bump('known_symbols_containing_a_dot_checked')
         if e is not None:
             if g != e:
                 ctx.V('C16:gene-id-mapping',
